@@ -625,7 +625,7 @@ func init() {
 	engine.Register(engine.Spec[Case]{
 		ID:    "C17",
 		Level: "model_checking",
-		Rule: "explicit-state exploration of the real header objects: every history of up to 3 operations on req and 2 on the other objects (quick) / 3 on all objects and 4 on req over the 28 operations on Foo/fOO (thorough), over an alphabet of 42 operations (set with 5 values incl. empty, not-set, multi-line and a value with sub-fields; set/unset of sub-fields a and b; add; unset; on the names Foo, fOO, Bar) on req (recv), bereq (miss), beresp (fetch), obj (error) and resp (deliver); each history runs on a fresh interpreter through the real statement path with a snapshot of 9 reads (+ set/not-set test) after every step; invariants (read-after-set, read-after-unset, frame conditions for other headers and other sub-fields) on every transition and spelling invariance (history with Foo/fOO swapped) on every final state; plus histories of up to 2 operations with sub-field values containing separators (comma, semicolon, space, equals), and cross-object histories (0-1 operation on one object, one operation on each of the other four objects in its own scope on the same interpreter, reads of the first object must not move); a state is the vector of reads (used for counting only, histories are never pruned) Round 3: every history of up to 3 operations over {set H += V, set, unset, sub-field set} without add and without line breaks (append law: former value, empty when not set, followed by the operand); every history of up to 3 operations over sub-field keys foo / FOO / bar (the same key in another letter case is neither demanded nor framed).",
+		Rule: "explicit-state exploration of the real header objects: every history of up to 3 operations on req and 2 on the other objects (quick) / 3 on all objects and 4 on req over the 28 operations on Foo/fOO (thorough), over an alphabet of 42 operations (set with 5 values incl. empty, not-set, multi-line and a value with sub-fields; set/unset of sub-fields a and b; add; unset; on the names Foo, fOO, Bar) on req (recv), bereq (miss), beresp (fetch), obj (error) and resp (deliver); each history runs on a fresh interpreter through the real statement path with a snapshot of 9 reads (+ set/not-set test) after every step; invariants (read-after-set, read-after-unset, frame conditions for other headers and other sub-fields) on every transition and spelling invariance (history with Foo/fOO swapped) on every final state; plus histories of up to 2 operations with sub-field values containing separators (comma, semicolon, space, equals), and cross-object histories (0-1 operation on one object, one operation on each of the other four objects in its own scope on the same interpreter, reads of the first object must not move); a state is the vector of reads (used for counting only, histories are never pruned) Round 3: every history of up to 3 operations over {set H += V, set, unset, sub-field set} without add and without line breaks (append law: former value, empty when not set, followed by the operand); every history of up to 3 operations over sub-field keys foo / FOO / bar (the same key in another letter case is neither demanded nor framed). Round 4: the objects are also exercised in the other scopes that may write them (bereq in pass and fetch, req in deliver and pass, resp in log), histories of up to 2 operations each.",
 		Gen:  gen17,
 		Key: func(c Case) string {
 			var b strings.Builder
